@@ -2,6 +2,7 @@ package oracle
 
 import (
 	"fmt"
+	"sort"
 
 	"verif/ev"
 )
@@ -374,16 +375,29 @@ func (a *Analyzer) onShuttingDown(n *nodeState, r *ev.Rec) {
 	if r.Reason == "raft: node removed" {
 		a.stat("self-shutdowns-on-removal")
 		// C11: only after a configuration without the node is committed
-		// the newest committed configuration must be one without the node
-		var newest uint64
-		var newestCfg *ev.Cfg
-		for i, ci := range a.committed[n.key.cid] {
-			if ci.typ == ev.TypConfig && ci.cfg != nil && i >= newest {
-				newest, newestCfg = i, ci.cfg
+		// its removal is committed: two consecutive committed configurations, the
+		// first with the node, the second without it
+		var idxs []uint64
+		unknown := false
+		cm := a.committed[n.key.cid]
+		for i, ci := range cm {
+			if ci.typ == ev.TypConfig {
+				if ci.cfg == nil || ci.cfg.Nodes == nil {
+					unknown = true
+				}
+				idxs = append(idxs, i)
 			}
 		}
-		if newestCfg == nil || newestCfg.Has(n.key.nid) {
-			a.find("C11", "node-shuts-down-as-removed-without-committed-removal", "", r.Q, "%s shuts down as removed, but the newest committed configuration %s contains it", n.key, cfgString(newestCfg))
+		sort.Slice(idxs, func(i, j int) bool { return idxs[i] < idxs[j] })
+		removed := false
+		for k := 1; k < len(idxs); k++ {
+			p, c := cm[idxs[k-1]].cfg, cm[idxs[k]].cfg
+			if p != nil && c != nil && p.Has(n.key.nid) && !c.Has(n.key.nid) {
+				removed = true
+			}
+		}
+		if !removed && !unknown {
+			a.find("C11", "node-shuts-down-as-removed-without-committed-removal", "", r.Q, "%s shuts down as removed, but none of the %d committed configurations removes it", n.key, len(idxs))
 		}
 	}
 }
